@@ -101,6 +101,100 @@ func (c *c13) run() {
 		c.one(a, k)
 	}
 	c.direct()
+	c.expiredHops("C13")
+}
+
+// expiredHops (statement C01 for EPIC paths, and C13's "processed exactly like its embedded SCION
+// path"): EPIC packets whose current hop field - or the first hop field of the next segment at a
+// cross-over - has a valid MAC but is expired. They are handled (i) by a packet processor that has not
+// seen any packet yet, (ii) by a processor whose last SCION-path packet was handled before the hop field
+// expired. The embedded SCION processing rejects them (twin run), so must the EPIC processing.
+func (c *c13) expiredHops(prop string) {
+	r, e := c.r, c.e
+	a := stdAS(r, nil)
+	if err := a.build(3, 0, 0); err != nil {
+		panic(err)
+	}
+	type cs struct {
+		sc         scenario
+		rawE, rawS []byte
+		mode       string
+	}
+	mk := func(expireAt uint32, mode string) cs {
+		kind := []int{0, 0, 1, 1, 2, 3, 4}[r.Intn(7)]
+		sc, hops := randScenario(a, r, kind, []int{-1, 1, 2}[r.Intn(3)])
+		sc.expireSeg = sc.curSeg + 1
+		if sc.xover && r.Bool() {
+			sc.expireSeg = sc.curSeg + 2
+		}
+		sc.expireAt = expireAt
+		rawE, rawS := a.validEpicTwin(r, sc, hops, time.Now().UnixNano())
+		return cs{sc, rawE, rawS, mode}
+	}
+	check := func(x cs, proc *router.VerifR2Proc) {
+		var twin, er router.VerifR2Result
+		ans, ok := vlib.Safe(func() string {
+			twin = a.dp.Process(x.rawS, x.sc.via)
+			er = proc.Process(x.rawE, x.sc.via)
+			vt, ve := view(twin, false), view(er, true)
+			if vt.disp == ve.disp && vt.egress == ve.egress && vt.slowT == ve.slowT && vt.slowC == ve.slowC && bytes.Equal(vt.path, ve.path) {
+				return "inner"
+			}
+			if er.Disp == router.VerifR2Discard {
+				return "drop"
+			}
+			return fmt.Sprintf("diff disp=%d egress=%d slow=%d/%d", er.Disp, er.Egress, er.SlowType, er.SlowCode)
+		})
+		he, _ := parseRawHdr(x.rawE)
+		reg := he.pathRegion(x.rawE)
+		inner := "other"
+		if twin.Disp == router.VerifR2Forward {
+			inner = "fwd"
+		}
+		op := fmt.Sprintf("epic %d %d %d %d %d %s %d %d %d %s %s %s %d %s %s", uint64(a.ia), a.ingressOf(x.sc.via), he.srcIA, he.dstIA,
+			he.srcType&3, vlib.Hex(he.srcAddr), he.payloadLen, binary.BigEndian.Uint32(reg[0:4]), binary.BigEndian.Uint32(reg[4:8]),
+			vlib.Hex(reg[8:12]), vlib.Hex(reg[12:16]), vlib.Hex(reg[16:]), time.Now().UnixNano(), vlib.Hex(a.key), inner)
+		tag := fmt.Sprintf("expired-hop/%s/seg%+d/%s", x.mode, x.sc.expireSeg-1-x.sc.curSeg, ans)
+		if inner == "fwd" {
+			e.Extra["generator-miss:expired:"+x.sc.name] = "twin forwards a packet with an expired hop"
+			tag = "~" + tag
+		}
+		e.Op(op, ans, tag)
+		rep := map[string]any{"op": op, "raw": vlib.Hex(x.rawE), "via": x.sc.via, "scenario": x.sc.name, "processor": x.mode,
+			"expired_segment": x.sc.expireSeg - 1, "impl": ans, "scion_twin": fmt.Sprintf("disp=%d slow=%d/%d", twin.Disp, twin.SlowType, twin.SlowCode)}
+		if !ok {
+			e.Violate(prop+"/panic", ans, rep)
+			return
+		}
+		if twin.Disp == router.VerifR2Slow && er.Disp == router.VerifR2Forward {
+			e.Violate(prop+"/epic-expired-hop-forwarded", "EPIC-path packet with an expired hop field (valid MAC) is forwarded; the same packet with a SCION path is answered with SCMP path-expired", rep)
+		} else if ans != "inner" {
+			e.Violate(prop+"/epic-expired-hop-differs", "EPIC-path packet with an expired hop field is not treated like its embedded SCION path", rep)
+		}
+	}
+	n := e.N(300, 3000)
+	for k := 0; k < n; k++ {
+		check(mk(0, "fresh-processor"), a.dp.NewProc())
+	}
+	// (ii) hop fields that expire about two seconds from now
+	stale := a.dp.NewProc()
+	t := nowSec()
+	var late []cs
+	for k := 0; k < n/3; k++ {
+		late = append(late, mk(t+2, "stale-processor"))
+	}
+	scw, hw := randScenario(a, r, 0, -1)
+	warm := a.buildPath(r, scw, hw, nowSec()-10).packet(r, nil, randHost(r), nil, 0, nil)
+	if w := stale.Process(warm, scw.via); w.Disp != router.VerifR2Forward {
+		e.Extra["generator-miss:warmup"] = fmt.Sprintf("disp=%d", w.Disp)
+	}
+	for time.Now().Unix() < int64(t)+3 {
+		time.Sleep(50 * time.Millisecond)
+	}
+	time.Sleep(200 * time.Millisecond)
+	for _, x := range late {
+		check(x, stale)
+	}
 }
 
 func (c *c13) one(a *asCfg, k int) {
